@@ -66,7 +66,7 @@ Definition C12_accept_stmt : Prop :=
     let k := d_core d in
     core_ok k (d_globals d) [] uord tord
     /\ (exists ks, pk (kinds_fuel k) (k_utils k) (k_rule k) = Some ks)
-    /\ (forall rws, d_rewriters d = Some rws ->
+    /\ (let rws := doc_rewriters d in
           (forall id k', In (id, k') rws ->
              k_fix k' <> None
              /\ exists uo to, core_ok k' (d_globals d) (core_defined_vars k) uo to)
